@@ -42,3 +42,26 @@ PROPS["C16"] = {
     "level_text": "Kernel-checked theorems: inter/hull/subset/strict/interior subset/intersects/overlaps/disjoint of the model agree with their point-wise definitions over the reals; diff and complementary (intervals and boxes of any dimension, by induction on the peeling loop) return pieces inside x that cover x minus y and share no positive-volume box with y; an accepted bisection covers the box, meets on one plane and is strictly smaller; accepted bisector answers respect the precision. The C++ is compared = with the model (order-insensitive for lists of boxes) on every generated case, bisections/bisectors through the verified checkers.",
     "level_note": "Trusted: Lean kernel + Mathlib, axioms propext/Classical.choice/Quot.sound; harness/driver glue; correspondence sampled (lattice exhaustive in thorough). overlaps follows the documented interior-point convention (degenerate operands). A genuine defect (IntervalVector::overlaps for boxes touching on a face) was found and fixed (8848b2a4).",
 }
+
+def _bwd_nontrivial(line, verdict):
+    # a case where something was actually contracted or decided infeasible, or a consistent sample point
+    return ("contract" in verdict and "nocontract" not in verdict) or "infeasible" in verdict or "consistent-kept" in verdict
+
+PROPS["C03"] = {
+    "modules": ["IbexProofs.Props.C03"],
+    "harnesses": ["h_bwd"],
+    "workloads": lambda tier, seed: [
+        {"harness": "h_bwd", "tag": "exact", "args": ["c03", seed, 2000 if tier == "quick" else 40000] + (["full"] if tier == "thorough" else [])},
+        {"harness": "h_bwd", "tag": "sampled", "args": ["c03t", seed, 400 if tier == "quick" else 10000] + (["full"] if tier == "thorough" else [])},
+    ],
+    "nontrivial": _bwd_nontrivial,
+    "rule": "result intervals derived from the forward image of sub-intervals of the arguments (so consistent tuples exist) and random ones; "
+            "lattice of special endpoints + moderate random intervals; rational operators decided exactly by the verified checkers, "
+            "other operators by MPFR-rigorous sample points in the removed parts; non-trivial = the call contracted, proved infeasibility, or a consistent sample point was tested",
+    "assumptions": ["exact decision for add sub mul div sqrt abs max min sign floor ceil pow(n>=1); point sampling (MPFR oracle) for sqr exp log cos sin tan acos asin atan cosh sinh tanh acosh asinh atanh atan2 pow(n<=0)",
+                    "vector/matrix backward operators, bwd_chi, bwd_saw, bwd_imod not yet driven"],
+    "trusted": ["MPFR/GMP as point oracle for transcendental operators"],
+    "technique": "Lean 4 proof (verified exact checkers: contracting, no consistent real tuple lost, flag) run on the C++ outputs + MPFR-rigorous point sampling for transcendental operators",
+    "level_text": "Kernel-checked theorems: each checker run by the driver on the outputs (x1',x2',flag) of bwd_add/sub/mul/div/sqrt/abs/max/min/sign/floor/ceil/pow(n>=1) is sound for all intervals (any extended bounds) and all real tuples: accepted outputs are sub-intervals, contain every consistent tuple, and flag=false only if none exists; the projections are computed with exact rational arithmetic so that one-ulp rounding slips are decided, not sampled. Other operators: a sample point whose MPFR image enclosure lies in y must remain (sampleOk_sound).",
+    "level_note": "Trusted: Lean kernel + Mathlib (axioms propext/Classical.choice/Quot.sound), harness/driver glue, MPFR oracle; correspondence sampled. Four genuine defects found and fixed (bwd_pow n=0 and negative odd n, bwd_atan2 with x=0, bwd_mul/bwd_div through gaol::div_rel rounding).",
+}
